@@ -553,6 +553,45 @@ fn modules_that_handle_their_own_exceptions() -> Vec<Case> {
     out
 }
 
+/// A function that escaped from a module whose import was abandoned keeps *its* module's globals, also for the
+/// closures it makes later.  The module throws one of its own functions (or a vec / an instance holding it) from
+/// its top-level code; the importer catches it, calls it - the function makes a nested closure that reads and
+/// counts in the module's globals - imports the module again (the code runs again and throws a second
+/// generation), and uses both generations side by side: each counts in its own globals, and the failed imports
+/// leave nothing behind that a later import would trip over.
+pub fn escaped_functions_of_abandoned_imports() -> Vec<crate::expect::Expect> {
+    use crate::expect::Expect;
+    let mut out = Vec::new();
+    let carriers = [("the function itself", "throw greeter;", "e"), ("a vec holding it", "throw [greeter];", "e[0]"), ("a closure over it", "var g = greeter; throw || g();", "e")];
+    let nestings = [
+        ("lambda", "fn greeter() { var f = || { counter += 1; return \"${greeting} ${counter}\"; }; return f(); }"),
+        ("nested function", "fn greeter() { fn inner() { counter += 1; return \"${greeting} ${counter}\"; } return inner(); }"),
+        ("lambda in a lambda", "fn greeter() { var f = || (|| { counter += 1; return \"${greeting} ${counter}\"; })(); return f(); }"),
+        ("closure made in a fiber", "fn greeter() { return Fiber.new(|| { var f = || { counter += 1; return \"${greeting} ${counter}\"; }; return f(); }).call(); }"),
+    ];
+    for (cname, throw_stmt, take) in carriers {
+        for (nname, greeter) in nestings {
+            let module = format!("print(\"load plug\");\nvar greeting = \"hello from plug\";\nvar counter = 0;\n{}\n{}\nprint(\"not reached\");\n", greeter, throw_stmt);
+            let main = format!(
+                "var first = nil;\ntry {{ import \"plug\"; }} catch e {{ first = {take}; }}\nprint(first());\nprint(first());\nvar second = nil;\ntry {{ import \"plug\"; }} catch e {{ second = {take}; }}\nprint(second());\nprint(first());\nprint(second());\ntry {{ import \"plug\"; print(\"imported\"); }} catch e {{ print(type(e) == ImportError); }}\nimport \"other\";\nprint(other.ok);\n",
+                take = take
+            );
+            let mut modules = std::collections::BTreeMap::new();
+            modules.insert("plug".to_string(), module);
+            modules.insert("other".to_string(), "var ok = \"other loaded\";\n".to_string());
+            out.push(Expect {
+                family: "escaped_functions_of_abandoned_imports",
+                request: proto::Request { op: "run".into(), snippets: vec![main], modules, fuel: Some(1_000_000), ..Default::default() },
+                out: vec![vec!["load plug".into(), "hello from plug 1".into(), "hello from plug 2".into(), "load plug".into(), "hello from plug 1".into(), "hello from plug 3".into(), "hello from plug 2".into(), "load plug".into(), "false".into(), "other loaded".into()]],
+                end: vec!["ok".into()],
+                describe: json!({"thrown": cname, "the_function_makes": nname}),
+                nontrivial: true,
+            });
+        }
+    }
+    out
+}
+
 fn reimport_changes_nothing() -> Vec<Case> {
     let mut out = Vec::new();
     let shadow_body = || -> Vec<Stmt> {
@@ -897,6 +936,13 @@ pub fn run(ctx: &Ctx) -> Report {
     let xs = crate::expect::run_expect(ctx, &ctx.runner_checked, across.into_iter(), &|_e, _r| None, &|_e, _p| None);
     report.cov("programs_sequences_on_one_interpreter", json!(n_across));
     report.violations.extend(xs.violations);
+    {
+        let esc = escaped_functions_of_abandoned_imports();
+        let n_esc = esc.len();
+        let es = crate::expect::run_expect(ctx, &ctx.runner_checked, esc.into_iter(), &|_e, _r| None, &|_e, _p| None);
+        report.cov("escaped_functions_of_abandoned_imports", json!(n_esc));
+        report.violations.extend(es.violations);
+    }
     // a program compiled once for a module of the embedding's choosing and executed again and again
     {
         let kept = crate::c15::kept_program_histories();
